@@ -99,6 +99,8 @@ func runC04(p *core.Prog, r *core.Report) {
 	c03R5(p, r, "C04.R9")
 	// children before parents in an import as well (shared with C09.R10)
 	importOrderRule(p, r, "C04.R10")
+	// a child whose upload failed is never remembered as present (shared with C05.R7)
+	afterFailureRule(p, r, "C04.R11")
 }
 
 // resolveLit returns the function literal a go statement runs: a literal, or a local variable
